@@ -154,6 +154,23 @@ CLAIMED["C02"] = _entry(
     "static analysis: guard dominance, canvas/list freshness dataflow on the CFG, canonical-form comparison of coordinate translations with placement offsets",
 )
 
+CLAIMED["C04"] = _entry(
+    "Static analysis decides structural conditions of faithful painting: the per-cell loop's variables are never read after the loop (the insert-mode corner cell uses its own "
+    "attribute/charset/text triple); HIDE_CURSOR first, SHOW_CURSOR only with a canvas cursor and after positioning; everything that invalidates the terminal contents forces a repaint and "
+    "the screen buffer is recorded only after the write loop; the charset-switch test carries a first-run flag (the None sentinel collides with the normal charset); HTML text passes "
+    "html.escape; palette caches are coherent and lookups total. The effect of the byte stream on a terminal across frame histories needs a terminal interpreter and is not decided (level 'other').",
+    "DESIGN.md section 3, C04; engines E6, E11, E9",
+    "static analysis: reaching-definition leak rule, CFG dominance of cursor/repaint emissions, sentinel-collision rule, taint-to-sanitiser rule for the HTML back-end, cache coherence rules",
+)
+CLAIMED["C17"] = _entry(
+    "Static analysis decides the table and cache agreements that let an attribute name reach the terminal unchanged: palette tuples built and stored in the depth order every consumer's "
+    "index map assumes, all five depths covered; every palette store announced to the back-end; the attrspec/escape caches written together and rebuilt after every terminal-property "
+    "change; total palette lookups with default fallback; AttrMap's focus-map selection and fresh-canvas application; the attribute of a cut wide character's replacement space. "
+    "Run alignment through layout/encoding and SGR decoding are value-level and not decided (level 'other').",
+    "DESIGN.md section 3, C17; engines E9, E1, E7",
+    "static analysis: producer/consumer table agreement with constant folding, store=>notify pairing, write=>rebuild cache discipline, guard dominance",
+)
+
 _PENDING = "check not built yet in this session (planned per DESIGN.md section 3); listed here until its static rules exist and pass on the pinned tree"
 NOT_APPLICABLE = {pid: _PENDING for pid in [f"C{i:02d}" for i in range(1, 21)] if pid not in CLAIMED and pid != "C07"}
 NOT_APPLICABLE["C07"] = (
